@@ -235,4 +235,59 @@ PROPS = {
         "level_text": "see theorems in Properties/C18.v (stop controller) plus differential checks of the protocol",
         "level_note": "Constraint-level protocol properties are checked differentially only.",
     },
+    "C13": {
+        "runner": "RunEngine",
+        "theorems": ["C13_forced_byte_is_the_only_byte", "C13_no_forced_byte_means_choice_or_accepting",
+                     "C13_force_bytes_all_forced", "C13_forcing_loses_no_output"],
+        "rule": "grammars with fixed keys, constants and alternatives sharing prefixes (plus random CFGs) x canonical greedy "
+                "tokenizers over single-byte and multi-byte vocabularies; at every step: compute_ff_bytes, compute_ff_tokens, "
+                "compute_mask, commit. Implementation-only: each forced byte is fed to a byte-level engine of the same grammar whose "
+                "mask must be exactly that byte; ff tokens decode to a prefix of the forced bytes, are accepted, the mask is the "
+                "singleton of the first ff token, accepting flags agree afterwards. Sessions (canonical mode: forcing, "
+                "re-tokenisation, chop) replayed on the model. non-trivial = sessions with at least one forced byte",
+        "trusted_base": ["modelled, not verified: parser.rs forced_byte / force_bytes, tokenparser.rs ff_tokens / compute_mask / "
+                         "tokenize_and_chop, toktree.rs chop_tokens, tokenv.rs tokenize_bytes_marker (coq/Engine.v, TokParser.v, Trie.v)",
+                         "the canonical tokenizer is the greedy tokenizer over a byte-complete vocabulary (what the harness provides); "
+                         "process_prompt is not covered"],
+        "assumptions": ["core fragment; sessions hitting the step item limit are skipped"],
+        "level_text": "Theorems: a reported forced byte is the unique byte the pure engine accepts, in a non-accepting state; every byte "
+                      "appended by force_bytes is forced at its position and committing them equals running the pure engine; hence every "
+                      "output reachable before is reachable after (agreement on the common prefix). ff tokens / chop / singleton mask: "
+                      "executable model compared with the implementation on every session.",
+        "level_note": "Partial: the token-level part (ff_tokens prefix property, chop soundness, prompt conservation) is compared, not proved.",
+    },
+    "C14": {
+        "runner": "RunEngine",
+        "theorems": ["C14_schedule_independent", "C14_schedules_agree", "C14_shared_tables_append_only"],
+        "rule": "2..16 clones (alternating Matcher::clone sharing the lexer and deep_clone) of an engine after a common prefix, each "
+                "with its own mask-guided history planned on a private engine; half of the cases run an explicit random interleaving "
+                "of the clones' steps, half run every clone on its own OS thread (barrier start, yield between steps); all masks of "
+                "every clone compared with a private freshly built engine. non-trivial = cases where all clones matched "
+                "(the comparison itself is the case)",
+        "trusted_base": ["modelled, not verified: the shared lexer as an append-only memo of state vectors and transitions "
+                         "(regexvec.rs insert_state / transition; parser.rs with_shared holds the mutex for the whole operation) — coq/Clones.v",
+                         "not exhibited by the model: data races, memory ordering, mutex poisoning, rayon scheduling; real-thread "
+                         "executions and llg_par_compute_mask are validated only",
+                         "the tie of Clones.v to the code is structural; behaviourally each clone is compared with a private engine"],
+        "assumptions": ["no resource limit is hit because of states created by other clones (shared counters)"],
+        "level_text": "Theorem for every interleaving of atomic operations of n clones over a shared append-only memo: clone i ends in "
+                      "exactly the state its own bytes lead to (what a private engine computes). Real threads: validation only.",
+        "level_note": "Partial: interleaving semantics proved; real-thread executions validated only.",
+    },
+    "C19": {
+        "runner": "Run19",
+        "theorems": ["C19_negated_ranges_are_the_complement", "C19_negated_ranges_inside_vocabulary"],
+        "rule": "vocabularies whose ordinary tokens spell pieces and whole names of special tokens; grammars = sequences of literal "
+                "text (also text spelling special names) and token references <name>, <[id]>, <[a-b,...]>, <[^...]>, <[*]>; at every "
+                "text position (also inside the text) the mask must contain no special and no bare-marker token; at every reference "
+                "the mask must be exactly the denoted set, and a denoted token must be accepted; tokenize_bytes of text spelling "
+                "special names yields ordinary tokens only and decodes back; tokenize_bytes_marker and negated ranges compared with the model",
+        "trusted_base": ["modelled, not verified: grammar_builder.rs negated_token_ranges (coq/Special.v), tokenv.rs "
+                         "tokenize_bytes_marker (coq/TokParser.v); the engine's numeric-token commit path is not modelled "
+                         "(implementation-only predicates cover it)"],
+        "assumptions": ["lexemes of text grammars cannot match the marker byte (UTF-8 mode of the external regex parser)"],
+        "level_text": "Theorem: a negated token-range reference denotes exactly the complement within the vocabulary, well formed. "
+                      "Everything else of the property is evaluated on the implementation at every text / reference position.",
+        "level_note": "Partial: text_excludes_marker and range_exact are checked on the implementation only.",
+    },
 }
